@@ -28,6 +28,13 @@ pub fn gen(seed: u64, tier: Tier, k: u64) -> Value {
         }
         return json!({"case": case.to_json(), "layout": "as-created", "steps": 14, "h_seed": rng.next(), "via_cli": false, "many": true});
     }
+    if k % 11 == 4 {
+        // a small container written with the low-level creators: content packs declared in reverse id order, the directory pack
+        // declared first or second (every pack of such a manifest gets rewritten by a history of a few steps)
+        let n_extra = rng.range(1, 3) as usize;
+        let case = gen_small(&mut rng, tier, Pkg::NoConcat, n_extra, 3);
+        return json!({"case": case.to_json(), "layout": "as-created", "steps": rng.range(6, 20), "h_seed": rng.next(), "via_cli": k % 22 == 4, "many": true});
+    }
     let pkg = [Pkg::NoConcat, Pkg::OneFile, Pkg::TwoFiles][(k % 3) as usize];
     let n_extra = if k % 5 == 0 { rng.range(1, 2) as usize } else { 0 };
     let mut case = gen_small(&mut rng, tier, pkg, n_extra, 4);
